@@ -45,6 +45,18 @@ def cli_env(guard: bool = False) -> dict:
     return e
 
 
+def through_link(path, on: bool):
+    """When `on`: the file is renamed to t_<name> and `path` becomes a symbolic link to it - an input named through a link is the
+    file the link points to (size, content), for every command that reads files."""
+    from pathlib import Path
+    path = Path(path)
+    if on and path.is_file() and not path.is_symlink():
+        target = path.with_name("t_" + path.name)
+        path.rename(target)
+        path.symlink_to(target.name)
+    return path
+
+
 def num(v: int) -> str:
     """A number as the command line / a configuration file may spell it: the notation (0x.. hex, decimal, 0o.. octal, 0b.. binary)
     is free wherever the tool reads integers with base 0, so it varies with the value."""
